@@ -578,17 +578,19 @@ def onDeadline (e : Ep) : Ep :=
 
 /-- the close branch: with keys, one sealed alert whose sequence number comes from `write_seq`
 once the handshake has completed (the counter application records use: `write_epoch` was published
-and equals the context's epoch) and from the context otherwise; the task ends. -/
+and equals the context's epoch) and from the context otherwise; then — with or without keys, whatever
+the state was — the state `Closed` is stored and published and the task ends.  (`send()` checks the
+state first, so every `send()` that starts after this is refused.) -/
 def onClose (e : Ep) : Ep × List Out :=
   if !e.alive then (e, [])
   else match e.ctx.keys with
-    | none => ({ e with alive := false }, [])
+    | none => ({ e with alive := false, conn := .closed }, [])
     | some _ =>
       if e.ctx.epoch > 0 ∧ e.writeEpoch = e.ctx.epoch then
-        ({ e with alive := false, writeSeq := e.writeSeq + 1 },
+        ({ e with alive := false, conn := .closed, writeSeq := e.writeSeq + 1 },
          [.send ⟨dtlsCtAlert, e.ctx.epoch, e.writeSeq, true, [1, 0]⟩])
       else
-        ({ e with alive := false }, [.send ⟨dtlsCtAlert, e.ctx.epoch, e.ctx.seqNum, true, [1, 0]⟩])
+        ({ e with alive := false, conn := .closed }, [.send ⟨dtlsCtAlert, e.ctx.epoch, e.ctx.seqNum, true, [1, 0]⟩])
 
 /-- `send()`: only when Connected; one `fetch_add` per chunk -/
 def onSend (e : Ep) (data : Bytes) : Ep × List Out :=
